@@ -120,7 +120,7 @@ func NewBlockDecompressor(argsMap map[string]any) (*BlockDecompressor, error) {
 		return nil, fmt.Errorf("'%s' is a reserved name", this.outputName)
 	}
 
-	if len(this.outputName) == 0 && this.inputName == _DECOMP_STDIN {
+	if len(this.outputName) == 0 && strings.EqualFold(this.inputName, _DECOMP_STDIN) {
 		this.outputName = _DECOMP_STDOUT
 	}
 
